@@ -182,3 +182,162 @@ def lines_straddle_with_fallback(c):
         if r is not None and lo <= n < r and (fb is not None or c.get("fb") is not None):
             return True
     return False
+
+
+# ------------------------------------------------------------------------------------------------
+# K-cli: the real binary end to end (argv → stdout, exit status) against the model behind the
+# python transcription of parse_args' wiring (default delimiter, implied join, -c / --json
+# replacement, line-mode delimiter)
+
+
+def rand_cli(rng):
+    """a random ACCEPTED command line with concrete values, and the equivalent `cut eng=auto` case"""
+    mode = rng.choice(["f", "f", "f", "c", "b", "l", None])
+    z = rng.random() < 0.2
+    eol = b"\0" if z else b"\n"
+    argv = []
+    c = {"kind": "cut", "eng": "auto", "z": z}
+    fmt_ok = True
+    js = mode in ("f", "c", None) and rng.random() < 0.15
+    if js:
+        fmt_ok = False
+    bs, bt = rand_bounds(rng, fmt_p=0.3 if fmt_ok else 0, k=4)
+    if mode:
+        argv += ["-" + mode, bt]
+        c["b"] = bt
+    else:
+        c["b"] = "1:"
+    d = None
+    if mode in ("f", None):
+        if rng.random() < 0.7:
+            d = rng.choice([b"-", b"--", b",", "é".encode(), b"ab"])
+            argv += ["-d", d.decode()]
+        c["d"] = d if d is not None else b"\t"
+        c["bt"] = "f"
+    elif mode == "l":
+        c["d"] = eol
+        c["bt"] = "l"
+    else:
+        c["d"] = b""
+        c["bt"] = mode
+    repl = None
+    nojoin = False
+    M = False
+    if mode in ("f", None):
+        if rng.random() < 0.15 and not js:
+            M = True
+        if not M:
+            for k, fl in (("g", "-g"), ("p", "-p"), ("s", "-s"), ("m", "-m")):
+                if rng.random() < 0.2:
+                    argv.append(fl)
+                    c[k] = True
+            if rng.random() < 0.25:
+                t = rng.choice(["l", "r", "b", "L", "R", "B"])
+                argv += ["-t", t]
+                c["t"] = t.lower()
+        if rng.random() < 0.25:
+            argv.append("-j")
+            c["j"] = True
+        if not js and rng.random() < 0.25:
+            repl = rng.choice([b"/", b"::", b""]) if not M else b"/"
+            argv += ["-r", repl.decode()]
+    elif mode == "l":
+        if rng.random() < 0.2:
+            argv.append("--no-join")
+            nojoin = True
+        if rng.random() < 0.15:
+            argv.append("-m")
+            c["m"] = True
+    elif mode == "c":
+        if rng.random() < 0.15:
+            argv.append("-m")
+            c["m"] = True
+    if js:
+        argv.append("--json")
+        c["json"] = True
+        repl = b","
+    if mode == "c" and not js:
+        repl = b""
+    if z:
+        argv.append("-z")
+    if rng.random() < 0.25:
+        v = rng.choice(["", "G", "é"])
+        argv += rng.choice([["--fallback-oob", v], ["--fallback-oob=" + v]])
+        c["fb"] = v.encode()
+    if M:
+        # -M needs a 1-byte delimiter, ascending bounds; otherwise the binary rejects: keep only compatible sets
+        if (d is not None and len(d) != 1):
+            M = False
+        else:
+            argv += ["-M", rng.choice(["1", "64"])]
+            c["M"] = True
+            c["b"] = rng.choice(["1", "2", "1,3", "2:3", "2:", "{1}x{2}", "1,2=F"])
+            argv[1 if mode else 0:2 if mode else 0] = []
+            if mode:
+                argv = ["-f", c["b"]] + argv[1:] if argv and argv[0] == "-f" else ["-f", c["b"]] + argv
+            else:
+                argv = ["-f", c["b"]] + argv
+    c["r"] = repl
+    c["j"] = bool(c.get("j") or js or repl is not None or (mode == "l" and not nojoin) or mode == "c")
+    # input
+    if mode == "c":
+        recs = ["".join(rng.choice(["a", "é", "😎", " "]) for _ in range(rng.randint(0, 5))).encode() for _ in range(rng.randint(1, 3))]
+        inp = eol.join(recs) + eol
+    elif mode == "b":
+        inp = bytes(rng.choice([0, 10, 97, 255, 45]) for _ in range(rng.randint(0, 8)))
+    elif mode == "l":
+        ls = [rng.choice([b"a", b"", b"bc"]) for _ in range(rng.randint(1, 5))]
+        inp = eol.join(ls) + eol
+    else:
+        inp = rand_input(rng, c["d"], z, rich=not js)
+        if js:
+            inp = inp.replace(b"\xff", b"q")
+    c["in"] = inp
+    if M:
+        c["seg"] = [65536]
+    return argv, inp, c
+
+
+def cli_roundtrip(chk, tuc_binary, n, want=None):
+    """binary vs model on n random accepted command lines; `want(argv)` filters"""
+    from common import run_cli
+    rng = chk.rng
+    trip = []
+    while len(trip) < n:
+        argv, inp, c = rand_cli(rng)
+        # fix up the -M rewrite (bounds must be the first -f)
+        if c.get("M"):
+            rest = []
+            skip = False
+            for i, a in enumerate(argv):
+                if skip:
+                    skip = False
+                    continue
+                if a == "-f" and i > 0:
+                    skip = True
+                    continue
+                rest.append(a)
+            argv = rest
+        if want and not want(argv):
+            continue
+        trip.append((argv, inp, c))
+    res = run_cli(tuc_binary, [(a, i) for a, i, _ in trip])
+    lines = [case_line(c) for _, _, c in trip]
+    model = run_model(lines)
+    for (argv, inp, c), (st, out), l, (m, _s) in zip(trip, res, lines, model):
+        chk.evaluations += 1
+        chk.count("cli-roundtrip")
+        chk.nontrivial_add(("cli", tuple(argv), inp))
+        if st not in ("0", "1"):
+            chk.report_oracle("the binary ends with a status other than 0 or 1", {"argv": argv, "stdin_hex": inp.hex(), "status": st})
+            continue
+        if m in ("unmodelled", "badbounds", "reject"):
+            chk.count("cli-roundtrip:" + m)
+            if m in ("badbounds", "reject") and not (st == "1" and out == b""):
+                chk.report_tie("K-cli: the model rejects an argv the binary runs", {"component": "K-cli", "argv": argv, "case": l, "binary": [st, out.hex()], "model": m})
+            continue
+        mst, mout = parse_result(m)
+        chk.disagreements_checked += 1
+        if (("0" if mst == "ok" else "1") != st) or mout != out:
+            chk.report_tie("K-cli: binary output / exit status differ from the model behind parse_args' wiring",
+                           {"component": "K-cli", "argv": argv, "stdin_hex": inp.hex(), "case": l, "binary": [st, out.hex()], "model": m})
